@@ -192,6 +192,12 @@ def outcome_request(d, site):
     if vals is not None and vals[0] == 'call' and vals[1].endswith("GetValuesState::new"):
         out.update(kind='values', next=next_kind(vals[2][0], site), payload=lens_of(vals[2][1]), padding=lens_of(vals[2][2]))
         return out
+    if vals is not None and vals[0] == 'agg' and vals[2].endswith("GetValuesState::GetValuesState"):
+        # the same state written as a struct literal
+        fl = dict(vals[3])
+        if {'next', 'payload_rem', 'padding_rem'} <= set(fl):
+            out.update(kind='values', next=next_kind(fl['next'], site), payload=lens_of(fl['payload_rem']), padding=lens_of(fl['padding_rem']))
+            return out
     if st[0] == 'call' and st[1].endswith("::into_state"):
         a = ir.peel(st[2][0])
         if a[0] == 'param' and 'decode' not in d.atoms:
@@ -413,8 +419,11 @@ def r4_2_getvalues(rep, facts):
             comp = False
             nonempty = False
             for (e, lab) in conds:
-                if e[0] == 'bin' and e[1] == 'Lt' and any(y[0] == 'field' and y[2] == 'payload_rem' for y in ir.walk(e[3])):
-                    left = ir.peel(e[2])
+                # the fact `payload_rem <= available` holds on this edge, however the test is spelled
+                fact = ir.cmp_fact(e, lab)
+                if fact is not None and fact[0] == 'le' and any(y[0] == 'field' and y[2] == 'payload_rem' for y in ir.walk(fact[1])) \
+                        and not any(y[0] == 'bin' for y in ir.walk(ir.peel(fact[1]))):
+                    left = ir.peel(fact[2])
                     if left[0] == 'field' and ir.peel(left[1])[0] == 'bin':
                         left = ir.peel(left[1])
                     avail = False
@@ -423,7 +432,7 @@ def r4_2_getvalues(rep, facts):
                     if left[0] == 'bin' and left[1].startswith('Sub'):
                         a, b2 = ir.peel(left[2]), ir.peel(left[3])
                         avail = a[0] == 'field' and a[2] == 'free_start' and b2[0] == 'field' and b2[2] == 'raw_start'
-                    if lab == ('case', 0) and avail:
+                    if avail:
                         comp = True
                 if e[0] == 'bin' and e[1] == 'Gt' and any(y[0] == 'field' and y[2] == 'payload_rem' for y in ir.walk(e[2])) and cv(e[3]) == 0:
                     if dispatch.label_truth(lab):
